@@ -9,6 +9,7 @@ which composes `F64.div_mono` (correctly rounded division is monotone in the div
 -/
 import Proofs.C10
 import Proofs.Lemmas.F64Div
+import Proofs.Lemmas.F64Arith
 
 namespace C10
 open F64 Unit.Scale
@@ -228,6 +229,77 @@ theorem sigfig_lift (i : Nat) (t : Bits) (ht : sigfigs[i]? = some t) (v : Bits) 
   · intro h
     have e := pred_toNat t pt.1
     exact Nat.lt_of_le_of_lt (fixedScaled_mono_bits v (pred t) _ ppt.lt63 (by omega)) hk.2
+
+/-! ### negative values: sign + the same digits -/
+
+theorem fixedScaled_neg (b : Bits) (p : Nat) : fixedScaled (F64.neg b) p = fixedScaled b p := by
+  unfold fixedScaled; rw [mant_neg, expo_neg]
+
+theorem fixedScaled_abs (b : Bits) (p : Nat) : fixedScaled (F64.abs b) p = fixedScaled b p := by
+  unfold fixedScaled; rw [mant_abs, expo_abs]
+
+/-- **printedK_abs** — the digits printed for a finite non-zero x of either sign are those printed
+for |x| (`x/f = −(|x|/f)` exactly, by symmetry of round-to-nearest-even). -/
+theorem printedK_abs (x f : Bits) (p : Nat) (hx : isFinite x = true) (zx : isZero x = false)
+    (hf : PosFin f) : printedK x f p = printedK (F64.abs x) f p := by
+  cases hs : signBit x
+  · rw [abs_of_signBit_false x hs]
+  · have hp := posFin_abs x hx zx
+    have e : x = F64.neg (F64.abs x) := (neg_abs_of_signBit_true x hs).symm
+    unfold printedK
+    conv_lhs => rw [e]
+    rw [div_neg_dividend (F64.abs x) f hp.isFinite hp.isZero hf.isFinite hf.isZero, fixedScaled_neg]
+
+/-- **printedK_mono_abs** — monotone in |x| for operands of either sign -/
+theorem printedK_mono_abs (a b f : Bits) (p : Nat) (ha : isFinite a = true) (za : isZero a = false)
+    (hb : isFinite b = true) (zb : isZero b = false) (hf : PosFin f)
+    (h : (F64.abs a).toNat ≤ (F64.abs b).toNat) : printedK a f p ≤ printedK b f p := by
+  rw [printedK_abs a f p ha za hf, printedK_abs b f p hb zb hf]
+  exact printedK_mono_bits _ _ f p (posFin_abs a ha za) (posFin_abs b hb zb) hf h
+
+/-- **row_lift_signed** — `row_lift` for every finite non-zero x of either sign, thresholds compared
+with |x| (as `commonScale` does: it takes `F64.abs` of the values first). -/
+theorem row_lift_signed (f : Factor) (hf : f ∈ siFactors ∨ f ∈ iecFactors) (x : Bits)
+    (hx : isFinite x = true) (zx : isZero x = false) :
+    (f.t100.toNat ≤ (F64.abs x).toNat → 1000 ≤ printedK x f.factor 1) ∧
+    ((F64.abs x).toNat < f.t100.toNat → printedK x f.factor 2 < 10000) ∧
+    (f.t10.toNat ≤ (F64.abs x).toNat → 1000 ≤ printedK x f.factor 2) ∧
+    ((F64.abs x).toNat < f.t10.toNat → printedK x f.factor 3 < 10000) ∧
+    (f.t1.toNat ≤ (F64.abs x).toNat → 1000 ≤ printedK x f.factor 3) := by
+  have pf := (factor_posFin f hf).1
+  rw [printedK_abs x f.factor 1 hx zx pf, printedK_abs x f.factor 2 hx zx pf,
+    printedK_abs x f.factor 3 hx zx pf]
+  exact row_lift f hf (F64.abs x) (posFin_abs x hx zx)
+
+theorem row_lift_lower_signed (fs : List Factor) (top : Nat)
+    (hfs : (fs = siFactors ∧ top = 10000) ∨ (fs = iecFactors ∧ top = 10240))
+    (i : Nat) (f g : Factor) (h1 : fs[i]? = some f) (h2 : fs[i + 1]? = some g)
+    (x : Bits) (hx : isFinite x = true) (zx : isZero x = false)
+    (h : (F64.abs x).toNat < f.t1.toNat) : printedK x g.factor 1 < top := by
+  have hmg : g ∈ fs := List.mem_of_getElem? h2
+  have hin : g ∈ siFactors ∨ g ∈ iecFactors := by
+    rcases hfs with ⟨rfl, _⟩ | ⟨rfl, _⟩
+    · exact Or.inl hmg
+    · exact Or.inr hmg
+  rw [printedK_abs x g.factor 1 hx zx (factor_posFin g hin).1]
+  exact row_lift_lower fs top hfs i f g h1 h2 (F64.abs x) (posFin_abs x hx zx) h
+
+/-- **fmtFixed_neg** — a finite negative float prints as "-" followed by the text of its absolute
+value. -/
+theorem fmtFixed_neg (c : Bits) (hc : isFinite c = true) (hs : signBit c = false) (p : Nat) :
+    fmtFixed (F64.neg c) p = "-" ++ fmtFixed c p := by
+  unfold fmtFixed
+  simp only [isNaN_neg, isInf_neg, isNaN_of_finite hc, isInf_of_finite hc, signBit_neg, hs,
+    fixedScaled_neg, Bool.not_false, Bool.false_eq_true, if_false, if_true, String.empty_append]
+
+/-- **format_neg** — `Scaler.Format` of −v is "-" ++ `Format` of v, for finite positive v whose
+scaled quotient is finite (it always is for the table's factors unless v/factor overflows). -/
+theorem format_neg (s : Scaler) (v : Bits) (hv : PosFin v) (hf : PosFin s.factor)
+    (hq : isFinite (div v s.factor) = true) :
+    format s (F64.neg v) = "-" ++ format s v := by
+  unfold format
+  rw [div_neg_dividend v s.factor hv.isFinite hv.isZero hf.isFinite hf.isZero,
+    fmtFixed_neg _ hq (by rw [signBit_false_iff]; exact div_signBit v s.factor hv hf), String.append_assoc]
 
 /-- non-trivial instance of `printedK_mono`: 1234.0 ≤ 1234.5 with factor 1000.0, two decimals -/
 example : printedK 0x4093480000000000 0x408F400000000000 2 ≤ printedK 0x40934A0000000000 0x408F400000000000 2 :=
